@@ -59,6 +59,30 @@ def render(decls):
     return "\n".join(out)
 
 
+def clutter(decls):
+    """other legal top-level content of the input file, none of which declares a package-level type: a method and a
+    function whose bodies declare LOCAL types named like the structs (other fields, other tags), variables of inline
+    struct types, constants.  parse.Fields must give the same tree with or without it, wherever it stands."""
+    names = [n for n, _ in decls]
+    out = ["func (t T) MarshalJSON() ([]byte, error) {"]
+    for n in names:
+        out.append("\ttype %s struct {\n\t\tShadow%s int64 `parquet:\"shadow\"`\n\t\tsecret string\n\t}" % (n, n))
+        out.append("\tvar v%s %s\n\t_ = v%s" % (n, n, n))
+    out.append("\treturn nil, nil\n}\n")
+    out.append("func helper() {\n\ttype (\n%s\t)\n}\n" % "".join("\t\t%s struct{ Other []string `parquet:\"other\"` }\n" % n for n in names))
+    out.append("var Global = struct {\n\tA int32 `parquet:\"g\"`\n}{}\n\nconst K = 3\n")
+    return "\n".join(out)
+
+
+def render_with(decls, where):
+    body = render(decls)
+    c = clutter(decls)
+    if where == "after":
+        return body + "\n" + c
+    head, rest = body.split("\n", 2)[0], body.split("\n", 2)[2]
+    return head + "\n\n" + c + "\n" + rest
+
+
 def model_text(decls):
     return ";".join("%s{%s}" % (name, ",".join("%s:%s:%s" % ("+".join(names), model_t(t), tag.encode().hex() if tag else "-") for names, t, tag in fs))
                     for name, fs in decls)
@@ -181,7 +205,16 @@ def run(chk):
             cases.append((d, b, desc, "embedded"))
         if any(not names for _, fs in b for names, _, _ in fs):
             cases.append((inline_all(b), b, "every embedded struct written inline", "embedded"))
-    impl = common.chunked_parallel(pair.impl, ["parse-struct T %s" % render(d).encode().hex() for d, _, _, _ in cases], workers=8, chunk=50)
+    # the same declarations surrounded by functions with same-named LOCAL types, variables and constants
+    # (seeded change C14-r8: type discovery by ast.Inspect recorded function-local types over package-level ones)
+    rendered = {}
+    for b in BASES:
+        picks = [(b, "base")] + [(d, desc) for d, desc in variants_embedded(b)[:3]] + [(d, desc) for d, desc in variants_excluded(b)[:2]]
+        for d, desc in picks:
+            for where in ("after", "before"):
+                cases.append((d, b, "%s; local types of the same names in function bodies %s the declarations" % (desc, where), "surroundings"))
+                rendered[len(cases) - 1] = render_with(d, where)
+    impl = common.chunked_parallel(pair.impl, ["parse-struct T %s" % rendered.get(i, render(d) if i not in rendered else "").encode().hex() for i, (d, _, _, _) in enumerate(cases)], workers=8, chunk=50)
     model = common.chunked_parallel(pair.model, ["parse-struct T %s" % model_text(d) for d, _, _, _ in cases], workers=8, chunk=100)
     base_tree = {}
     for (d, b, desc, kind), a in zip(cases, impl):
@@ -190,17 +223,18 @@ def run(chk):
     tie_breaks, prop_fail = [], []
     nontrivial = set()
     kinds = {}
-    for (d, b, desc, kind), a, m in zip(cases, impl, model):
+    for ci, ((d, b, desc, kind), a, m) in enumerate(zip(cases, impl, model)):
         kinds[kind] = kinds.get(kind, 0) + 1
+        src = rendered.get(ci) or render(d)
         tree = a.split(" errs=")[0]
         if tree != m:
-            tie_breaks.append({"what": "parse.Fields vs PQ.Parse.parseStruct", "variant": desc, "source": render(d)[:600], "impl": tree[:300], "model": m[:300]})
+            tie_breaks.append({"what": "parse.Fields vs PQ.Parse.parseStruct", "variant": desc, "source": src[:900], "impl": tree[:300], "model": m[:300]})
         want = base_tree[id(b)].split(" errs=")[0]
         if kind != "base" and tree != want:
             fname = desc.split(" ")[1] if kind == "excluded" else ""
             cls = "unexported-name-not-a-z" if (kind == "excluded" and desc.startswith("unexported") and not ("a" <= fname[:1] <= "z")) else \
                   ("nested-field-list" if kind == "excluded" and ("func(" in desc or "struct{" in desc or "interface{" in desc) else kind)
-            prop_fail.append({"case": "%s\n%s" % (desc, render(d)), "key": {"class": cls},
+            prop_fail.append({"case": "%s\n%s" % (desc, src), "key": {"class": cls},
                               "clause": "field tree of the decorated struct differs from the plain struct's (%s)" % desc, "got": tree[:500], "want": want[:500]})
         else:
             nontrivial.add(desc + str(id(b)))
